@@ -1,7 +1,7 @@
 """Texts for MANIFEST.json (level claimed, trusted base, technique) per property."""
 
 HOOK_COMMITS = ['eb8809f']
-FIX_COMMITS = ['61faa54', '2e82d91', '4439b53', '6f67524', '2ca778f', 'fbf9934', 'b89b568', '23492cc', '001601a', '8d5bbd7', 'f1f1100', '6a69627', '5113772', 'd12f1c9', 'a5c24da', '1383b68', 'ae052e7', '05ab0b3', 'b45f07a', 'a9daa89', '2b61d49', 'e61f19a', 'fe6dad8']
+FIX_COMMITS = ['61faa54', '2e82d91', '4439b53', '6f67524', '2ca778f', 'fbf9934', 'b89b568', '23492cc', '001601a', '8d5bbd7', 'f1f1100', '6a69627', '5113772', 'd12f1c9', 'a5c24da', '1383b68', 'ae052e7', '05ab0b3', 'b45f07a', 'a9daa89', '2b61d49', 'e61f19a', 'fe6dad8', 'f732323']
 
 NOT_APPLICABLE_REASON = {}
 
